@@ -1,6 +1,6 @@
 CONSTANTS
   Waiters = {1, 2, 3}
-  Start = 14
+  Start = 6
   Mod = 16
   Signed = FALSE
   MaxOps = 0
